@@ -101,7 +101,7 @@ func RaceWorker(c *evid.Ctx) {
 			return func() string {
 				for _, r := range got {
 					if !r.Lib() {
-						ignored[r.Sites[0]+" ~ "+r.Sites[1]]++
+						ignored[shortSym(r.Sites[0])+" ~ "+shortSym(r.Sites[1])]++
 						continue
 					}
 					k := r.Key()
@@ -135,8 +135,15 @@ func RaceWorker(c *evid.Ctx) {
 		c.Violation(raceKey(f.sc.desc.Name, f.rep), fmt.Sprintf("%s — data race: %s (%s) and %s (%s) are not ordered by any synchronisation in schedule %v", f.sc.String(), short(f.rep.Sites[0]), f.rep.Kinds[0], short(f.rep.Sites[1]), f.rep.Kinds[1], f.choices),
 			map[string]interface{}{"engine": "E1-race", "scenario": f.sc.String(), "choices": f.choices, "report": f.rep.Text, "seen_in_schedules": f.n})
 	}
-	for k, n := range ignored {
-		c.Info("race reports not between two library functions (harness/shim bookkeeping, ignored): %s x%d", k, n)
+	var ig []string
+	for k := range ignored {
+		if !strings.Contains(k, ".func") {
+			ig = append(ig, k)
+		}
+	}
+	sort.Strings(ig)
+	if len(ig) > 0 {
+		c.Info("race reports not between two library functions (harness/shim bookkeeping, ignored): %s", strings.Join(ig, "; "))
 	}
 }
 
@@ -170,6 +177,14 @@ func method(fn string) string {
 }
 
 func short(fn string) string {
+	if i := strings.LastIndex(fn, "/"); i >= 0 {
+		return fn[i+1:]
+	}
+	return fn
+}
+
+// shortSym drops the package path of a symbol.
+func shortSym(fn string) string {
 	if i := strings.LastIndex(fn, "/"); i >= 0 {
 		return fn[i+1:]
 	}
